@@ -276,6 +276,7 @@ def replay(pid, path):
 
 
 def main(argv=None):
+    sys.setrecursionlimit(20000)
     argv = list(sys.argv[1:] if argv is None else argv)
     if not argv:
         print("usage: check Cxx [quick|thorough] [--replay path]")
@@ -292,12 +293,13 @@ def main(argv=None):
         if "--replay" in argv:
             return replay(pid, argv[argv.index("--replay") + 1])
         code, ctx, new, known = run_property(pid, tier, seed)
-        if tier == "thorough" or os.environ.get("VERIF_SELFTEST"):
+        if os.environ.get("VERIF_SELFTEST", "1") != "0":
+            # E7: never influences the exit code, never prints VIOLATION
             try:
                 from . import selftest
                 selftest.run_for(pid, tier, seed)
-            except ImportError:
-                pass
+            except Exception as e:
+                print("self-test skipped: %s" % e)
         return code
     except AnalysisError as e:
         print("ANALYSIS-ERROR property=%s %s" % (pid, e))
